@@ -283,12 +283,9 @@ Section WalkSearch.
   Let n := length lrs.
   Let nbrs := all_neighbours lrs.
 
-  Lemma attempt_only_valueerror : forall st idx stuck s R,
+  Lemma attempt_total : forall st idx stuck s R,
     st_ok n st -> idx_ok n idx -> NoDup idx -> predok st R ->
-    match attempt_bottleneck_fix S next lrs nbrs st idx stuck s with
-    | Ok (idx', _) => idx_ok n idx' /\ NoDup idx'
-    | Err c => c = 1
-    end.
+    exists idx' s', attempt_bottleneck_fix S next lrs nbrs st idx stuck s = Ok (idx', s') /\ idx_ok n idx' /\ NoDup idx'.
   Proof.
     intros st idx stuck s R Hst Hidx Hnd Hpo. unfold attempt_bottleneck_fix.
     assert (Hl : length lrs = n) by reflexivity.
@@ -304,15 +301,15 @@ Section WalkSearch.
     { destruct tl0 as [|t0 r0]; [contradiction|]. intros C. assert (In t0 tl) by (apply B2; left; reflexivity). rewrite C in H. destruct H. }
     destruct (non_nb_turns_range n lrs idx mxr Hl Hidx tl B1) as [nn [Enn Hnn]]. rewrite Enn.
     destruct (randint_range S next 0 100 s ltac:(lia)) as [r0 [s0 [Er0 _]]]. rewrite Er0.
-    assert (P1 : match (if (r0 <? 30) && negb (zlen nn =? 0) then pick S next nn 1 s0 else pick S next tl 1 s0) with
-                 | Ok (x, _) => inrange n x | Err c => c = 1 end).
-    { destruct ((r0 <? 30) && negb (zlen nn =? 0)).
-      - pose proof (pick_range S next n nn 1 s0 Hnn ltac:(lia)) as P. destruct (pick S next nn 1 s0) as [[x sx]|c]; [apply P | exact P].
-      - pose proof (pick_range S next n tl 1 s0 B1 ltac:(lia)) as P. destruct (pick S next tl 1 s0) as [[x sx]|c]; [apply P | exact P]. }
-    destruct (if (r0 <? 30) && negb (zlen nn =? 0) then pick S next nn 1 s0 else pick S next tl 1 s0) as [[ix1 s1]|c];
-      [|exact P1].
-    pose proof (pick_range S next n tl 2 s1 B1 ltac:(lia)) as P2.
-    destruct (pick S next tl 2 s1) as [[ix2a s2]|c]; [|exact P2]. destruct P2 as [P2 _].
+    assert (P1 : exists ix1 s1, (if (r0 <? 30) && negb (zlen nn =? 0) then pick S next nn 1 s0 else pick S next tl 1 s0)
+                                = Ok (ix1, s1) /\ inrange n ix1).
+    { destruct ((r0 <? 30) && negb (zlen nn =? 0)) eqn:Ec.
+      - apply andb_prop in Ec. destruct Ec as [_ Ec]. apply negb_true_iff in Ec. apply Z.eqb_neq in Ec.
+        assert (Hnne : nn <> []) by (intros C; rewrite C in Ec; apply Ec; reflexivity).
+        destruct (pick1_ok S next n nn s0 Hnn Hnne) as [x [sx [E [Hx _]]]]. eauto.
+      - destruct (pick1_ok S next n tl s0 B1 Htlne) as [x [sx [E [Hx _]]]]. eauto. }
+    destruct P1 as [ix1 [s1 [Ep1 P1]]]. rewrite Ep1.
+    destruct (pick2_ok S next n tl s1 B1 Htlne) as [ix2a [s2 [E2 [P2 _]]]]. rewrite E2.
     assert (Hix2 : inrange n (if ix1 =? ix2a then last tl 0 else ix2a)).
     { destruct (ix1 =? ix2a); [|exact P2]. apply B1.
       destruct tl as [|t r]; [contradiction|]. clear. revert t. induction r as [|y r IH]; intros t; [left; reflexivity|].
@@ -322,21 +319,22 @@ Section WalkSearch.
     rewrite Es.
     assert (Hidx1 : idx_ok n idx1) by (split; [lia | intros x Hx; apply Hia, Hin1, Hx]).
     pose proof (zswap_nodup _ _ _ _ Es Hnd) as Hnd1.
-    destruct (stuck >? MAX_ITERATIONS_STUCK); [|split; assumption].
+    destruct (stuck >? MAX_ITERATIONS_STUCK); [|eauto].
     destruct (add_more_turns_range n nbrs st idx1 (conj Hnl Hna) Hst Hidx1 nn tl Hnn B1) as [tl2 [Em [M1 M2]]]. rewrite Em.
-    pose proof (pick_range S next n tl2 1 s2 M1 ltac:(lia)) as Q1.
-    destruct (pick S next tl2 1 s2) as [[jx1 s3]|c]; [|exact Q1]. destruct Q1 as [Q1 _].
-    pose proof (pick_range S next n tl2 1 s3 M1 ltac:(lia)) as Q2.
-    destruct (pick S next tl2 1 s3) as [[jx2 s4]|c]; [|exact Q2]. destruct Q2 as [Q2 _].
+    assert (Htl2ne : tl2 <> []).
+    { destruct tl as [|t0 r0]; [contradiction|]. intros C. assert (In t0 tl2) by (apply M2; left; reflexivity). rewrite C in H. destruct H. }
+    destruct (pick1_ok S next n tl2 s2 M1 Htl2ne) as [jx1 [s3 [Eq1 [Q1 _]]]]. rewrite Eq1.
+    destruct (pick1_ok S next n tl2 s3 M1 Htl2ne) as [jx2 [s4 [Eq2 [Q2 _]]]]. rewrite Eq2.
     destruct Hidx1 as [Hil1 Hia1].
     destruct (zswap_range idx1 jx1 jx2 ltac:(rewrite Hil1; exact Q1) ltac:(rewrite Hil1; exact Q2)) as [idx2 [Es2 [Hl2 Hin2]]].
-    rewrite Es2. split; [split; [lia | intros x Hx; apply Hia1, Hin2, Hx] | eapply zswap_nodup; eauto].
+    rewrite Es2. exists idx2, s4. split; [reflexivity|].
+    split; [split; [lia | intros x Hx; apply Hia1, Hin2, Hx] | eapply zswap_nodup; eauto].
   Qed.
 
   Definition yinv (x : sstate S) : Prop :=
     xinv S lrs x /\ NoDup (ss_idx S x) /\ NoDup (ss_bidx S x) /\
     exists R B, predok (ss_st S x) R /\ forall k h, zget (ss_st S x) k = Some h -> B <= R k.
-  Definition only_1 (r : sresult) : Prop := match r with Ok _ => True | Err c => c = 1 end.
+  Definition no_err (r : sresult) : Prop := match r with Ok _ => True | Err _ => False end.
 
   Lemma pass_keeps_ranks : forall best idx st st1 sz R B,
     st_ok n st -> idx_ok n idx -> NoDup idx -> predok st R -> (forall k h, zget st k = Some h -> B <= R k) ->
@@ -354,12 +352,12 @@ Section WalkSearch.
   Qed.
 
   Lemma search_step_walk : forall minreq maxit limit x, yinv x ->
-    match search_step S next lrs nbrs minreq maxit limit x with Continue x' => yinv x' | Done r => only_1 r end.
+    match search_step S next lrs nbrs minreq maxit limit x with Continue x' => yinv x' | Done r => no_err r end.
   Proof.
     intros minreq maxit limit x ((Hst & Hidx & Hb) & Hnd & Hndb & R & B & Hpo & Hlow). unfold search_step.
     destruct (_ || _); [|exact I].
-    pose proof (attempt_only_valueerror (ss_st S x) (ss_idx S x) (ss_i S x - ss_last S x) (ss_rng S x) R Hst Hidx Hnd Hpo) as A.
-    destruct (attempt_bottleneck_fix _ _ _ _ _ _ _ _) as [[idx1 rng1]|c]; [|exact A]. destruct A as [A Hnd1].
+    destruct (attempt_total (ss_st S x) (ss_idx S x) (ss_i S x - ss_last S x) (ss_rng S x) R Hst Hidx Hnd Hpo)
+      as [idx1 [rng1 [Eat [A Hnd1]]]]. rewrite Eat.
     destruct (allocate_indices_total lrs Hwf (ss_best S x) idx1 (ss_st S x) Hst A) as [st1 [sz [E Hst1]]].
     fold nbrs in E. rewrite E.
     destruct (pass_keeps_ranks _ _ _ _ _ R B Hst A Hnd1 Hpo Hlow E) as [R' [B' [Hpo' Hlow']]].
@@ -372,11 +370,11 @@ Section WalkSearch.
 
   Lemma search_walk : forall minreq maxit limit x, yinv x ->
     ss_last S x = 0 -> ss_i S x = 0 -> minreq < ss_best S x ->
-    only_1 (search S next lrs nbrs minreq maxit limit x).
+    no_err (search S next lrs nbrs minreq maxit limit x).
   Proof.
     intros minreq maxit limit x Hx Hl Hi Hb. unfold search.
     destruct (search_loop_terminates_lemma S next lrs nbrs minreq maxit limit x Hl Hi Hb) as [r Hr]. rewrite Hr.
-    pose proof (iter_pos_inv _ _ yinv only_1 _ (search_step_walk minreq maxit limit)
+    pose proof (iter_pos_inv _ _ yinv no_err _ (search_step_walk minreq maxit limit)
                   (search_fuel minreq maxit (ss_best S x)) x Hx) as V.
     rewrite Hr in V. exact V.
   Qed.
@@ -390,10 +388,10 @@ Proof.
   - apply IH.
 Qed.
 
-(* for every stream, the only abnormal outcome of a hill-climb run is the ValueError of random.randint *)
-Lemma hillclimb_only_valueerror_lemma : forall (S : Type) (next : S -> Z * S) lrs mi limit s,
+(* for every stream, a hill-climb run ends without any of the modelled exceptions *)
+Lemma hillclimb_no_error_lemma : forall (S : Type) (next : S -> Z * S) lrs mi limit s,
   Forall hc_wf lrs -> footprint_bound lrs <= 2 ^ 63 ->
-  match hillclimb S next lrs mi limit s with Ok _ => True | Err c => c = 1 end.
+  match hillclimb S next lrs mi limit s with Ok _ => True | Err _ => False end.
 Proof.
   intros S next lrs mi limit s Hwf Hfb.
   destruct (Nat.eq_dec (length lrs) 0) as [E0|E0].
